@@ -124,19 +124,24 @@ def run(ctx):
 
     # ---- R5 blob keyed by the looked-up member; absent -> empty
     r = ctx.rule("R5", "each member's blob encodes the assignment looked up under that member's id (empty if absent)", 1, "A")
-    loops = [x for x in walk_body_shallow(gen.body) if isinstance(x, ast.For)]
+    # the per-member unit: a loop over the members, or a one-parameter closure mapped over them by a comprehension
+    units = [(unparse(x.target), x, x.iter) for x in walk_body_shallow(gen.body) if isinstance(x, ast.For) and isinstance(x.target, ast.Name)]
+    for comp in [x for x in walk_body_shallow(gen.body) if isinstance(x, (ast.ListComp, ast.GeneratorExp)) and len(x.generators) == 1
+                 and not x.generators[0].ifs and isinstance(x.elt, ast.Call) and isinstance(x.elt.func, ast.Name) and x.elt.func.id in gen.nested]:
+        g_ = gen.nested[comp.elt.func.id]
+        if len(g_.params) == 1 and len(comp.elt.args) == 1 and norm(comp.elt.args[0]) == unparse(comp.generators[0].target):
+            units.append((g_.params[0], g_.node, comp.generators[0].iter))
     ok = False
-    for lp in loops:
-        encs = [c for c in ast.walk(lp) if isinstance(c, ast.Call) and call_name(c) == "encode_sync_group_member_assignment"]
-        mems = [c for c in ast.walk(lp) if isinstance(c, ast.Call) and call_name(c) == "_SyncGroupRequestMember"]
+    for lv, scope_, it_ in units:
+        encs = [c for c in ast.walk(scope_) if isinstance(c, ast.Call) and call_name(c) == "encode_sync_group_member_assignment"]
+        mems = [c for c in ast.walk(scope_) if isinstance(c, ast.Call) and call_name(c) == "_SyncGroupRequestMember"]
         if encs and mems:
-            lv = unparse(lp.target)
             av = kwarg(encs[0], "assignments", 1)
-            encv = [unparse(x.targets[0]) for x in ast.walk(lp) if isinstance(x, ast.Assign) and x.value is encs[0]]
+            encv = [unparse(x.targets[0]) for x in ast.walk(scope_) if isinstance(x, ast.Assign) and x.value is encs[0]]
             amap = [unparse(x.targets[0]) for x in walk_body_shallow(gen.body) if isinstance(x, ast.Assign) and isinstance(x.value, ast.Call)
                     and call_name(x.value) == "_round_robin_assignment"]
             ok = (bool(amap) and norm(av) in ("%s.get(%s.member_id, {})" % (amap[0], lv),) and norm(mems[0].args[0]) == "%s.member_id" % lv
-                  and encv and norm(mems[0].args[1]) == encv[0] and unparse(lp.iter) == gen.params[1])
+                  and ((encv and norm(mems[0].args[1]) == encv[0]) or mems[0].args[1] is encs[0]) and unparse(it_) == gen.params[1])
     r.check(ok, "%s#blob-keyed-by-member" % gen.qname, "blob and lookup do not use the same member id, or absent members do "
             "not get the empty assignment", where(gen, gen.node), "a member decodes another member's partitions")
 
